@@ -22,6 +22,7 @@ import (
 	imap "github.com/emersion/go-imap/v2"
 	"github.com/emersion/go-imap/v2/verif/internal/hx"
 	"github.com/emersion/go-imap/v2/verif/internal/kit"
+	"github.com/emersion/go-imap/v2/verif/internal/vconn"
 	"github.com/emersion/go-imap/v2/verif/lockmon"
 )
 
@@ -486,6 +487,86 @@ func runOnce(w *hx.W, cfg runCfg, seed int64) {
 	}
 }
 
+// lifecycle: the server object itself is shared state of all sessions. Serve calls on further
+// listeners and Close race with running sessions; Close has to return, every Serve has to return
+// once Close did, and the race detector has to stay silent about the listener bookkeeping.
+func lifecycle(w *hx.W, rng *rand.Rand, rounds int) {
+	for k := 0; k < rounds; k++ {
+		mem := kit.NewMem(kit.MemCfg{})
+		nExtra := rng.Intn(3)
+		nSess := rng.Intn(4)
+		closeFirst := rng.Intn(4) == 0
+		done := w.Begin("lifecycle", fmt.Sprintf("lifecycle round: %d extra listeners, %d sessions, closeFirst=%v", nExtra, nSess, closeFirst), 120*time.Second)
+		var served sync.WaitGroup
+		var lns []*vconn.Listener
+		startServe := func() {
+			ln := vconn.NewListener()
+			lns = append(lns, ln)
+			served.Add(1)
+			go func() {
+				defer served.Done()
+				if k%2 == 0 {
+					runtime.Gosched()
+				}
+				mem.Srv.Serve(ln)
+			}()
+		}
+		if !closeFirst {
+			for i := 0; i < nExtra; i++ {
+				startServe()
+			}
+		}
+		var sw sync.WaitGroup
+		var raws []*kit.Raw
+		for i := 0; i < nSess; i++ {
+			sw.Add(1)
+			r := mem.DialRaw()
+			raws = append(raws, r)
+			go func(i int) {
+				defer sw.Done()
+				defer r.Close()
+				r.Sync()
+				r.SendStr(fmt.Sprintf("a%d LOGIN user pass\r\n", i))
+				r.Sync()
+				for j := 0; j < 3; j++ {
+					r.SendStr(fmt.Sprintf("n%d NOOP\r\n", j))
+					if _, st := r.Sync(); st == "closed" {
+						return
+					}
+				}
+			}(i)
+		}
+		if rng.Intn(2) == 0 {
+			runtime.Gosched()
+		}
+		if closeFirst {
+			// Serve calls racing with Close: each either serves until Close or reports that the server is closed
+			for i := 0; i < nExtra; i++ {
+				startServe()
+			}
+		}
+		mem.Close()
+		// a connection that was still waiting in a listener's queue is nobody's any more
+		for _, r := range raws {
+			r.S.Close()
+		}
+		allServed := make(chan struct{})
+		go func() { served.Wait(); close(allServed) }()
+		select {
+		case <-allServed:
+		case <-time.After(30 * time.Second):
+			w.Violation("serve-outlives-close", "a Server.Serve call has not returned 30 s after Server.Close returned\n"+hx.Goroutines("imapserver.(*Server).Serve"), nil)
+			for _, ln := range lns {
+				ln.Close()
+			}
+		}
+		sw.Wait()
+		done()
+		w.Metric("server_lifecycle_rounds", 1)
+	}
+	w.Class("server-lifecycle")
+}
+
 func body(w *hx.W) {
 	defer runtime.GOMAXPROCS(runtime.GOMAXPROCS(0))
 	rng := w.Rand("c14")
@@ -508,6 +589,7 @@ func body(w *hx.W) {
 		w.CaseStr(fmt.Sprintf("%s|%d", cfg, seed))
 		w.Class(fmt.Sprintf("%s/sessions=%d/procs=%d/yield=%d", cfg.profile, cfg.sessions, cfg.procs, cfg.yield))
 	}
+	lifecycle(w, rng, w.Pick(30, 300))
 	w.Metric("distinct_interleaving_fingerprints", int64(len(fingerprints)))
 	st := lockmon.Snapshot()
 	w.Metric("lock_acquisitions_observed", st.Acquires)
